@@ -9,6 +9,9 @@
     pass's output, at the same fuel.  Induction on the fuel; the field case uses that the pass made
     the field nullable (`fieldShapeOK`), that `xden` is monotone in `nullable`, and that the
     source-side hypothesis for an absent field is exactly `null ∈ ⟦nullable T⟧`.
+
+  Everything is proved on `nrTy` / `PlainN` (plain types plus `T | null` pairs, Cog/Sem/SrcDen.lean);
+  the plain statements are corollaries.
 -/
 import Cog.Sem.WidenId
 import Cog.Sem.DenMono
@@ -24,7 +27,54 @@ theorem setNullable_map (i v m) : setNullable true (.map i v m) = .map i v { m w
 theorem or_null_mono {x y z : Bool} (h : (x && y || z) = true) : (true && y || z) = true := by
   cases x <;> simp_all
 
-theorem xden_setNullable (b : Bool) (S : Schemas) : ∀ n t j, plainTy t = true → xden b n S t j = true →
+theorem plain_nr : ∀ t : Ty, plainTy t = true → nrTy t = true
+  | .scalar .., _ => rfl
+  | .ref .., _ => rfl
+  | .array e m, h => by simp only [plainTy] at h; simpa [nrTy] using plain_nr e h
+  | .map i v m, h => by
+    simp only [plainTy, Bool.and_eq_true] at h
+    simp only [nrTy, Bool.and_eq_true]; exact ⟨h.1, plain_nr v h.2⟩
+  | .cref .., h => by simp [plainTy] at h
+  | .struct .., h => by simp [plainTy] at h
+  | .enum .., h => by simp [plainTy] at h
+  | .disj .., h => by simp [plainTy] at h
+  | .inter .., h => by simp [plainTy] at h
+  | .slot .., h => by simp [plainTy] at h
+  | .bad .., h => by simp [plainTy] at h
+
+theorem nullPairOf_cases {bs : List Ty} {t : Ty} (h : nullPairOf bs = some t) :
+    ∃ a b, bs = [a, b] ∧ ((isNull a = true ∧ isNull b = false ∧ t = b) ∨ (isNull b = true ∧ isNull a = false ∧ t = a)) := by
+  cases bs with
+  | nil => simp [nullPairOf] at h
+  | cons a r =>
+    cases r with
+    | nil => simp [nullPairOf] at h
+    | cons b r2 =>
+      cases r2 with
+      | cons _ _ => simp [nullPairOf] at h
+      | nil =>
+        refine ⟨a, b, rfl, ?_⟩
+        simp only [nullPairOf] at h
+        cases ha : isNull a <;> cases hb : isNull b <;> simp [ha, hb] at h <;> simp [h]
+
+/-- what `nullPairOf` says in the terms of the passes and of `xden` -/
+theorem nullPairOf_spec {bs : List Ty} {t : Ty} (h : nullPairOf bs = some t) :
+    (bs.length == 2 && hasNullType bs) = true ∧ nonNullTypes bs = [t] := by
+  obtain ⟨a, b, hbs, hc⟩ := nullPairOf_cases h
+  clear h
+  subst hbs
+  rcases hc with ⟨ha, hb, ht⟩ | ⟨hb, ha, ht⟩ <;> subst ht <;> simp [hasNullType, nonNullTypes, ha, hb]
+
+theorem nullPair_spec {bs : List Ty} (h : nullPair bs = true) :
+    ∃ t, nullPairOf bs = some t ∧ plainTy t = true := by
+  simp only [nullPair] at h
+  cases hn : nullPairOf bs with
+  | none => simp [hn] at h
+  | some t => exact ⟨t, rfl, by simpa [hn] using h⟩
+
+theorem setNullable_disj (bs i m) : setNullable true (.disj bs i m) = .disj bs i { m with nullable := true } := rfl
+
+theorem xden_setNullable (b : Bool) (S : Schemas) : ∀ n t j, nrTy t = true → xden b n S t j = true →
     xden b n S (setNullable true t) j = true := by
   intro n
   induction n with
@@ -88,17 +138,26 @@ theorem xden_setNullable (b : Bool) (S : Schemas) : ∀ n t j, plainTy t = true 
         | inter _ _ => simp [hty] at h
         | slot _ _ => simp [hty] at h
         | bad _ _ => simp [hty] at h
-    | cref _ _ _ _ => simp [plainTy] at hp
-    | struct _ _ _ _ => simp [plainTy] at hp
-    | enum _ _ => simp [plainTy] at hp
-    | disj _ _ _ => simp [plainTy] at hp
-    | inter _ _ => simp [plainTy] at hp
-    | slot _ _ => simp [plainTy] at hp
-    | bad _ _ => simp [plainTy] at hp
+    | disj bs info m =>
+      simp only [nrTy] at hp
+      obtain ⟨t, ht, _⟩ := nullPair_spec hp
+      obtain ⟨hc, hnn⟩ := nullPairOf_spec ht
+      rw [setNullable_disj]
+      simp only [xden, hc, if_true, hnn] at h ⊢
+      exact h
+    | cref _ _ _ _ => simp [nrTy] at hp
+    | struct _ _ _ _ => simp [nrTy] at hp
+    | enum _ _ => simp [nrTy] at hp
+    | inter _ _ => simp [nrTy] at hp
+    | slot _ _ => simp [nrTy] at hp
+    | bad _ _ => simp [nrTy] at hp
 
-/-! ### the pass on plain types -/
+/-! ### the pass on types without anonymous structs -/
 
 theorem plainTy_setNullable (b : Bool) (t : Ty) : plainTy (setNullable b t) = plainTy t := by
+  cases t <;> rfl
+
+theorem nrTy_setNullable (b : Bool) (t : Ty) : nrTy (setNullable b t) = nrTy t := by
   cases t <;> rfl
 
 theorem isCollLike_setNullable (b : Bool) (t : Ty) : isCollLike (setNullable b t) = isCollLike t := by
@@ -123,12 +182,43 @@ theorem NR_vTy_plain : ∀ t : Ty, plainTy t = true → vTy t = t
   | .slot .., h => by simp [plainTy] at h
   | .bad .., h => by simp [plainTy] at h
 
-theorem NR_vFields_plain : ∀ fs : List Field, (fs.all fun f => plainTy f.ty) = true →
+theorem NR_vTy_nr : ∀ t : Ty, nrTy t = true → vTy t = t
+  | .scalar .., _ => by simp [vTy]
+  | .ref .., _ => by simp [vTy]
+  | .array e m, h => by simp only [nrTy] at h; simp [vTy, NR_vTy_nr e h]
+  | .map i v m, h => by simp only [nrTy, Bool.and_eq_true] at h; simp [vTy, NR_vTy_nr v h.2]
+  | .disj bs info m, h => by
+    simp only [nrTy] at h
+    obtain ⟨t, ht, hpt⟩ := nullPair_spec h
+    have hnull : ∀ x : Ty, isNull x = true → vTy x = x := by
+      intro x hx; cases x <;> simp [isNull] at hx <;> simp [vTy]
+    obtain ⟨a, b, hbs, hc⟩ := nullPairOf_cases ht
+    clear ht h
+    subst hbs
+    rcases hc with ⟨ha, _, hta⟩ | ⟨hb, _, hta⟩
+    · subst hta; simp [vTy, NotRequiredFieldAsNullableType.vList, hnull a ha, NR_vTy_plain _ hpt]
+    · subst hta; simp [vTy, NotRequiredFieldAsNullableType.vList, hnull b hb, NR_vTy_plain _ hpt]
+  | .cref .., h => by simp [nrTy] at h
+  | .struct .., h => by simp [nrTy] at h
+  | .enum .., h => by simp [nrTy] at h
+  | .inter .., h => by simp [nrTy] at h
+  | .slot .., h => by simp [nrTy] at h
+  | .bad .., h => by simp [nrTy] at h
+
+theorem NR_vFields_nr : ∀ fs : List Field, (fs.all fun f => nrTy f.ty) = true →
     vFields fs = fs.map fun f => fixField f f.ty
   | [], _ => by simp [vFields]
   | f :: fs, h => by
     simp only [List.all_cons, Bool.and_eq_true] at h
-    simp [vFields, NR_vTy_plain f.ty h.1, NR_vFields_plain fs h.2]
+    simp [vFields, NR_vTy_nr f.ty h.1, NR_vFields_nr fs h.2]
+
+theorem all_plain_nr (fs : List Field) (h : (fs.all fun f => plainTy f.ty) = true) :
+    (fs.all fun f => nrTy f.ty) = true := by
+  simp only [List.all_eq_true] at h ⊢
+  exact fun f hf => plain_nr _ (h f hf)
+
+theorem NR_vFields_plain (fs : List Field) (h : (fs.all fun f => plainTy f.ty) = true) :
+    vFields fs = fs.map fun f => fixField f f.ty := NR_vFields_nr fs (all_plain_nr fs h)
 
 /-- the output of the pass -/
 def nrS (S : Schemas) : Schemas := mapSchemas vTy (setTy vTy) S
@@ -159,9 +249,9 @@ theorem fixField_self (f : Field) (h : f.required = true ∨ f.ty.getMeta.nullab
   rcases h with h | h <;> simp [fixField, h]
 
 theorem nr_fields (d d' : Ty → Json → Bool)
-    (himp : ∀ t j, plainTy t = true → d t j = true → d' t j = true)
-    (hmono : ∀ t j, plainTy t = true → d' t j = true → d' (setNullable true t) j = true)
-    (fs : List Field) (hp : (fs.all fun f => plainTy f.ty) = true) (members : List (String × Json))
+    (himp : ∀ t j, nrTy t = true → d t j = true → d' t j = true)
+    (hmono : ∀ t j, nrTy t = true → d' t j = true → d' (setNullable true t) j = true)
+    (fs : List Field) (hp : (fs.all fun f => nrTy f.ty) = true) (members : List (String × Json))
     (h : xFieldsWith true d fs members = true) :
     xFieldsWith false d' (fs.map fun f => fixField f f.ty) members = true := by
   simp only [xFieldsWith, List.all_map, List.all_eq_true] at h ⊢
@@ -202,12 +292,12 @@ theorem nr_fields (d d' : Ty → Json → Bool)
         simpa [xFieldValueOK, isCollLike_setNullable] using h.2
       | none =>
         rw [hl] at h; simp only [Bool.and_eq_true] at h ⊢
-        exact ⟨h.1, himp _ _ (by rw [plainTy_setNullable]; exact hpf) h.2⟩
+        exact ⟨h.1, himp _ _ (by rw [nrTy_setNullable]; exact hpf) h.2⟩
 
 theorem nr_structBody (d d' : Ty → Json → Bool)
-    (himp : ∀ t j, plainTy t = true → d t j = true → d' t j = true)
-    (hmono : ∀ t j, plainTy t = true → d' t j = true → d' (setNullable true t) j = true)
-    (fs : List Field) (hp : (fs.all fun f => plainTy f.ty) = true) (j : Json)
+    (himp : ∀ t j, nrTy t = true → d t j = true → d' t j = true)
+    (hmono : ∀ t j, nrTy t = true → d' t j = true → d' (setNullable true t) j = true)
+    (fs : List Field) (hp : (fs.all fun f => nrTy f.ty) = true) (j : Json)
     (h : xStructBody true d fs j = true) :
     xStructBody false d' (fs.map fun f => fixField f f.ty) j = true := by
   cases j with
@@ -220,7 +310,49 @@ theorem nr_structBody (d d' : Ty → Json → Bool)
 
 /-! ### the widening step -/
 
-theorem nr_widen (S : Schemas) (hP : Plain S = true) : ∀ n t j, plainTy t = true →
+theorem PlainN_schema {S : Schemas} (h : PlainN S = true) {s : Schema} (hs : s ∈ S) : nrSchema s = true := by
+  simp only [PlainN, List.all_eq_true] at h
+  exact h s hs
+
+theorem PlainN_located {S : Schemas} (h : PlainN S = true) {pkg name : String} {o : Obj}
+    (ho : Schemas.locateObject S pkg name = some o) : nrObjTy o.ty = true := by
+  obtain ⟨s, hs, hm⟩ := locateObject_mem ho
+  have := PlainN_schema h hs
+  simp only [nrSchema, Bool.and_eq_true, List.all_eq_true] at this
+  exact this.2 _ hm
+
+theorem plainObj_nrObj (t : Ty) (h : plainObjTy t = true) : nrObjTy t = true := by
+  cases t with
+  | struct fs g gi m =>
+    cases gi with
+    | none => simp only [plainObjTy] at h; simpa [nrObjTy] using all_plain_nr fs h
+    | some x => simp [plainObjTy] at h
+  | enum vs m => rfl
+  | scalar k v c m => rfl
+  | ref p n m => rfl
+  | array e m => exact plain_nr _ (by simpa [plainObjTy] using h)
+  | map i v m => exact plain_nr _ (by simpa [plainObjTy] using h)
+  | cref _ _ _ _ => simp [plainObjTy, plainTy] at h
+  | disj _ _ _ => simp [plainObjTy, plainTy] at h
+  | inter _ _ => simp [plainObjTy, plainTy] at h
+  | slot _ _ => simp [plainObjTy, plainTy] at h
+  | bad _ _ => simp [plainObjTy, plainTy] at h
+
+theorem Plain_PlainN (S : Schemas) (h : Plain S = true) : PlainN S = true := by
+  simp only [Plain, PlainN, List.all_eq_true] at h ⊢
+  intro s hs
+  have := h s hs
+  simp only [plainSchema, nrSchema, Bool.and_eq_true, List.all_eq_true] at this ⊢
+  exact ⟨this.1, fun ko hk => plainObj_nrObj _ (this.2 ko hk)⟩
+
+theorem NotRequired_run_plainN (S : Schemas) (h : PlainN S = true) :
+    NotRequiredFieldAsNullableType.run S = .ok (nrS S) :=
+  NotRequired_run S (fun _ hs => by
+    have := PlainN_schema h hs
+    simp only [nrSchema, Bool.and_eq_true] at this
+    exact this.1.1)
+
+theorem nr_widenN (S : Schemas) (hP : PlainN S = true) : ∀ n t j, nrTy t = true →
     xden true n S t j = true → xden false n (nrS S) t j = true := by
   intro n
   induction n with
@@ -230,7 +362,7 @@ theorem nr_widen (S : Schemas) (hP : Plain S = true) : ∀ n t j, plainTy t = tr
     cases t with
     | scalar kind v cs m => simpa [xden] using h
     | array e m =>
-      simp only [plainTy] at hp
+      simp only [nrTy] at hp
       simp only [xden, Bool.and_eq_true] at h ⊢
       refine ⟨h.1, ?_⟩
       cases j with
@@ -238,7 +370,7 @@ theorem nr_widen (S : Schemas) (hP : Plain S = true) : ∀ n t j, plainTy t = tr
       | null => exact h.2
       | bool _ | num _ | str _ | obj _ => exact h.2
     | map i v m =>
-      simp only [plainTy, Bool.and_eq_true] at hp
+      simp only [nrTy, Bool.and_eq_true] at hp
       simp only [xden] at h ⊢
       split at h
       · cases j with
@@ -248,21 +380,27 @@ theorem nr_widen (S : Schemas) (hP : Plain S = true) : ∀ n t j, plainTy t = tr
         | null => exact h
         | bool _ | num _ | str _ | arr _ => exact h
       · simp at h
+    | disj bs info m =>
+      simp only [nrTy] at hp
+      obtain ⟨t, ht, hpt⟩ := nullPair_spec hp
+      obtain ⟨hc, hnn⟩ := nullPairOf_spec ht
+      simp only [xden, hc, if_true, hnn] at h ⊢
+      exact ih _ _ (by rw [nrTy_setNullable]; exact plain_nr t hpt) h
     | ref p nm m =>
       simp only [xden] at h ⊢
       rw [nrS, locateObject_mapSchemas]
       cases ho : Schemas.locateObject S p nm with
       | none => simp [ho] at h
       | some o =>
-        have hpo := Plain_located hP ho
+        have hpo := PlainN_located hP ho
         simp only [ho, Option.map, setTy_ty] at h ⊢
         cases hty : o.ty with
         | struct fields gen gi sm =>
           cases gi with
           | none =>
             rw [hty] at hpo
-            simp only [plainObjTy] at hpo
-            simp only [hty, vTy, NR_vFields_plain fields hpo, Bool.or_eq_true] at h ⊢
+            simp only [nrObjTy] at hpo
+            simp only [hty, vTy, NR_vFields_nr fields hpo, Bool.or_eq_true] at h ⊢
             rcases h with h | h
             · exact Or.inl h
             · exact Or.inr (nr_structBody _ _ (fun t j => ih t j)
@@ -275,13 +413,13 @@ theorem nr_widen (S : Schemas) (hP : Plain S = true) : ∀ n t j, plainTy t = tr
         | scalar kind sv scs om => simpa [hty, vTy] using h
         | array ae am =>
           rw [hty] at hpo
-          have hpa : plainTy (.array ae am) = true := by simpa [plainObjTy] using hpo
-          simp only [hty, NR_vTy_plain _ hpa, Bool.and_eq_true] at h ⊢
+          have hpa : nrTy (.array ae am) = true := by simpa [nrObjTy] using hpo
+          simp only [hty, NR_vTy_nr _ hpa, Bool.and_eq_true] at h ⊢
           exact ⟨h.1, ih _ _ hpa h.2⟩
         | map mi mv mm =>
           rw [hty] at hpo
-          have hpa : plainTy (.map mi mv mm) = true := by simpa [plainObjTy] using hpo
-          simp only [hty, NR_vTy_plain _ hpa, Bool.and_eq_true] at h ⊢
+          have hpa : nrTy (.map mi mv mm) = true := by simpa [nrObjTy] using hpo
+          simp only [hty, NR_vTy_nr _ hpa, Bool.and_eq_true] at h ⊢
           exact ⟨h.1, ih _ _ hpa h.2⟩
         | ref rp rn rm =>
           simp only [hty, vTy] at h ⊢
@@ -291,12 +429,16 @@ theorem nr_widen (S : Schemas) (hP : Plain S = true) : ∀ n t j, plainTy t = tr
         | inter _ _ => simp [hty] at h
         | slot _ _ => simp [hty] at h
         | bad _ _ => simp [hty] at h
-    | cref _ _ _ _ => simp [plainTy] at hp
-    | struct _ _ _ _ => simp [plainTy] at hp
-    | enum _ _ => simp [plainTy] at hp
-    | disj _ _ _ => simp [plainTy] at hp
-    | inter _ _ => simp [plainTy] at hp
-    | slot _ _ => simp [plainTy] at hp
-    | bad _ _ => simp [plainTy] at hp
+    | cref _ _ _ _ => simp [nrTy] at hp
+    | struct _ _ _ _ => simp [nrTy] at hp
+    | enum _ _ => simp [nrTy] at hp
+    | inter _ _ => simp [nrTy] at hp
+    | slot _ _ => simp [nrTy] at hp
+    | bad _ _ => simp [nrTy] at hp
+
+/-- the plain statement -/
+theorem nr_widen (S : Schemas) (hP : Plain S = true) (n : Nat) (t : Ty) (j : Json) (ht : plainTy t = true)
+    (h : xden true n S t j = true) : xden false n (nrS S) t j = true :=
+  nr_widenN S (Plain_PlainN S hP) n t j (plain_nr t ht) h
 
 end Cog.Sem.Src
